@@ -62,6 +62,31 @@ CHECKS = [
               'value misfits; each violation names a parameter whose own bound value misfits; the original is called once with '
               '*args/**kwargs unchanged; its result object or exception comes back unchanged; no IndexError/KeyError/unbound '
               'name is reachable for binding or non-binding shapes.'),
+    dict(id='C06', engine='P', cat='model_checking', ref='4/C06',
+         technique='forking z3-backed string proxies through the real claw registry code; per-path entailment (unsat) of the declarative nearest-ancestor model',
+         note='Trusted base: bearverif/proxy.py (str-subclass proxies with constant hash and z3-backed equality, depth-first re-execution), '
+              'the declarative model c06.Model (written from the property), z3. Enumerated: history skeletons (<= 2 operations quick / <= 3 '
+              'thorough from package / packages / all / skip, plus beartyping blocks incl. nested), label counts per name (1-2 / 1-3) and 3 '
+              'concrete pairwise-different configurations. Solver variables: every label of every registered and queried name, i.e. every '
+              'aliasing pattern. make_package_names_from_args is replaced by a pass-through (identifier syntax is outside the claim); skip '
+              'lists are driven through _blacklist_packages. Violations are replayed with concrete names through the public beartype.claw API.',
+         text='For each enumerated history skeleton the real registry functions run on symbolic names; on every feasible aliasing path '
+              'the path condition must entail: each registration raises BeartypeClawHookException iff the model says it conflicts (and a '
+              'raising call leaves every later query unchanged), the final get_package_conf_or_none equals the nearest registered '
+              'ancestor, else beartype_all, unless a skipped prefix applies, and after a beartyping block the previous answer and the '
+              'path-hook presence are restored.'),
+    dict(id='C17', engine='X', cat='other', ref='4/C17',
+         technique='CrossHair symbolic execution of the real BeartypeConf.__new__/__eq__/__hash__/kwargs over creation histories with symbolic option values',
+         note='Trusted base: CrossHair 0.0.110 + z3, the documented per-option validity predicate (c17x.valid), harness hygiene of DESIGN 1.2 '
+              '(short-circuiting off, memo table emptied at the start and end of every path). Bounds: option values bool / int in [-1,2] / '
+              'None for boolean and tri-state options, every enum member + 3 non-members, 5 valid/invalid classes; histories of 2 creations '
+              '(3 for single options); which options vary is enumerated (3 singles, 2 pairs, enum and class options quick; all singles, all '
+              'pairs, triples thorough). Outside: float look-alikes (0.0, 1.0) and is_pep484_tower (CrossHair artefacts, see DESIGN), '
+              'unhashable collections, threads.',
+         text='Every harness must come back "Confirmed over all paths" with a refuted reachability twin: a creation raises '
+              'BeartypeConfParamException iff the documented validity predicate fails, independently of earlier creations, and nothing '
+              'else escapes; typed-equal kwargs in any order give the identical object, differing ones unequal objects, hash agrees with '
+              '==, options read back, BeartypeConf(**conf.kwargs) is conf.'),
     dict(id='C09', engine='G', cat='translation_validation', ref='4/C09',
          technique='SMT (z3) cost term over item-reading AST nodes with unbounded symbolic container length',
          text='Fast path: the translator attaches a cost to every item read (x[i], next(iter(x)), mapping lookups; len for '
@@ -82,11 +107,9 @@ NOT_APPLICABLE = [
 ]
 
 PENDING = [
-    ('C06', 'planned (Engine P); not yet built in this commit'),
     ('C07', 'planned (Engine G, partial); not yet built in this commit'),
     ('C13', 'planned (Engine G, partial); not yet built in this commit'),
     ('C14', 'planned (Engine G, partial); not yet built in this commit'),
-    ('C17', 'planned (Engine X); not yet built in this commit'),
     ('C19', 'planned (Engine G, partial); not yet built in this commit'),
     ('C20', 'planned (Engine G, partial); not yet built in this commit'),
 ]
